@@ -1,6 +1,7 @@
 import BevySyncModel.Proofs.Comp
 import BevySyncModel.Proofs.Mark
 import BevySyncModel.Generated.Sync
+import BevySyncModel.Proofs.CompLive
 /-! # C02 — component values converge to the most recent write on every peer
 
 The slice model (`Slice/Comp.lean`) has one key (entity uuid, component type), a host and a **list**
@@ -18,6 +19,10 @@ the replicated value (D8 repaired).  The theorems below are about exactly that c
 theorem C02_code_paths_tie :
     Generated.applySkipsOnToken = false ∧ Generated.applyIsPatch = false ∧ Generated.fixReinsertsValue = false := by
   decide
+
+/-- (tie) the model's `react` sends the whole queue and its `poll` hands every message to a closure: both
+`react_on_changed_components` send every change they pop, both `poll_for_messages` handle every message they take -/
+theorem C02_queues_tie : Generated.reactDrainsWholeQueue = true ∧ Generated.recvHandlesEveryMessage = true := by decide
 
 /-- (tie) `sync_detect<T>` and `sync_skinned_mesh` also fire for an entity that has just become a
 `SyncEntity` (`Or<(Changed<T>, Added<SyncEntity>)>`, D2 repaired) -/
@@ -76,6 +81,23 @@ theorem C02_client_epoch (w : Nat) (x : Option V) (s : State V) (as : List (Act 
     (ha : ∀ a ∈ as, ClientWrites w a) (hq : Quiescent (run ra false replace s as)) :
     Clean (lastWritten x as) (run ra false replace s as) :=
   client_epoch_converges w x s as hn hw hc ha hq
+
+/-- **C02, one epoch, host writes — the drain is reached, not assumed**: after any interleaving in which only the host
+writes, three fair rounds without further writes (a schedule of the model's own actions) leave every peer holding the most
+recent write, with nothing pending. -/
+theorem C02_host_epoch_total (x : Option V) (s : State V) (as : List (Act V)) (hc : Clean x s)
+    (ha : ∀ a ∈ as, HostWrites a) :
+    ∃ more : List (Act V), (∀ a ∈ more, isWrite a = false) ∧
+      Clean (lastWritten x as) (run ra false replace (run ra false replace s as) more) :=
+  host_epoch_total x s as hc ha
+
+/-- **C02, one epoch, client `w` writes — the drain is reached, not assumed** -/
+theorem C02_client_epoch_total (w : Nat) (x : Option V) (s : State V) (as : List (Act V))
+    (hn : (s.clients.map (·.id)).Nodup) (hw : ∃ c ∈ s.clients, c.id = w) (hc : Clean x s)
+    (ha : ∀ a ∈ as, ClientWrites w a) :
+    ∃ more : List (Act V), (∀ a ∈ more, isWrite a = false) ∧
+      Clean (lastWritten x as) (run ra false replace (run ra false replace s as) more) :=
+  client_epoch_total w x s as hn hw hc ha
 
 /-- **C02.** Different peers write the same component at different times, any two writers separated
 by a drain: after the last epoch every peer (host and every client) holds the most recent write. -/
